@@ -738,8 +738,19 @@ def add_online_moments(a: np.ndarray, b: np.ndarray, c: np.ndarray) -> None:
         / (c["count"] ** 2)
     )
     c["m4"][:] += 4 * delta * (a["count"] * b["m3"] - b["count"] * a["m3"]) / c["count"]
-    c["max"][:] = np.maximum(a["max"], b["max"])
-    c["min"][:] = np.minimum(a["min"], b["min"])
+    # An accumulator without samples has no extrema to contribute.
+    a_empty = a["count"] == 0
+    b_empty = b["count"] == 0
+    c["max"][:] = np.where(
+        b_empty,
+        a["max"],
+        np.where(a_empty, b["max"], np.maximum(a["max"], b["max"])),
+    )
+    c["min"][:] = np.where(
+        b_empty,
+        a["min"],
+        np.where(a_empty, b["min"], np.minimum(a["min"], b["min"])),
+    )
 
 
 @njit(cache=True, fastmath=True)
